@@ -77,6 +77,11 @@ def tcp_hdr_len(b0):
     return (2 if l < 13 else 3 if l == 13 else 4 if l == 14 else 6) + (1 if t == 13 else 2 if t == 14 else 0)
 
 
+def frame_code(f):
+    l = f[0] >> 4
+    return f[(2 if l < 13 else 3 if l == 13 else 4 if l == 14 else 6) - 1]
+
+
 def gen_tcp_stream(r, small=False, allow_big=True):
     """-> (stream bytes, meta) ; meta: kinds, message starts, 'hot' cut offsets (inside headers),
     tail kind"""
@@ -115,7 +120,8 @@ def gen_tcp_stream(r, small=False, allow_big=True):
         h += bytes([r.randrange(256)]) * (1 if tkl == 13 else 2 if tkl == 14 else 0)
         parts.append(h + gen_wire.rbytes(r, r.choice([0, 0, 1, 5, 40])))
         hot.extend(range(pos + 1, pos + len(h) + 1))
-        tail = "oversize"
+        tsz = tkl if tkl < 13 else h[6] + 14 if tkl == 13 else (h[6] << 8) + h[7] + 271
+        tail = "oversize" if ext + 65805 + tsz > HARD - 6 else "hugepartial"
     elif x < 0.30:
         # malformed but framed: TKL 15, reserved option nibble, marker without payload
         f, _ = gen_tcp_msg(r, "req")
@@ -135,7 +141,12 @@ def gen_tcp_stream(r, small=False, allow_big=True):
             g, _ = gen_tcp_msg(r, "ping")
             parts.append(g)
     stream = b"".join(parts)
-    return stream, {"kinds": kinds, "starts": starts, "hot": [h for h in hot if h < len(stream)], "tail": tail}
+    expect = None
+    if tail in ("none", "partial", "hugepartial", "oversize"):
+        # by construction: these messages, in this order, then (oversize) the close
+        expect = ([frame_code(f) for f in parts[:n]], 1 if tail == "oversize" else 0)
+    return stream, {"kinds": kinds, "starts": starts, "hot": [h for h in hot if h < len(stream)], "tail": tail,
+                    "expect": expect}
 
 
 def cuts_to_token(cut_points, n):
@@ -193,3 +204,196 @@ def cut_points_of(token, n):
         if pos < n:
             out.append(pos)
     return out
+
+
+def max_rcv(mtu):
+    """generator-side copy of coap_session_max_pdu_size_internal (aims sizes at the cap; the
+    verdict never depends on it)"""
+    if mtu <= 2:
+        return 0
+    if mtu <= 14:
+        return mtu - 2
+    if mtu <= 271:
+        return mtu - 3
+    if mtu <= 65808:
+        return mtu - 4
+    return mtu - 6
+
+
+def gen_capfit(r, mtu, d):
+    """a request whose declared size (everything after the header) is max_rcv(mtu) + d"""
+    target = max_rcv(mtu) + d
+    tl = r.choice([0, 2, 8])
+    opts = [(11, b"c")]
+    fixed = tl + 2 + 1               # token + option 11 "c" + payload marker
+    pl = max(1, target - fixed)
+    f = gen_wire.py_serialize("tcp", 0, r.choice([2, 3]), 0, gen_wire.rbytes(r, tl), opts, gen_wire.rbytes(r, pl))
+    return f
+
+
+# ------------------------------------------------------------------ WebSocket (server side)
+
+WS_RX = 1472
+WS_LINES = [b"Host: localhost", b"Upgrade: websocket", b"Connection: Upgrade",
+            b"Sec-WebSocket-Key: AAECAwQFBgcICQoLDA0ODw==", b"Sec-WebSocket-Protocol: coap",
+            b"Sec-WebSocket-Version: 13"]
+WS_GET = b"GET /.well-known/coap HTTP/1.1"
+
+
+def ws_frame(payload, mask=None, op=2, lenform=None, fin=0x80):
+    """client-to-server frame; mask=None -> unmasked; lenform: 7 / 16 / 64 (non-minimal allowed)"""
+    n = len(payload)
+    if lenform is None:
+        lenform = 7 if n < 126 else 16 if n < 65536 else 64
+    mb = 0x80 if mask is not None else 0
+    if lenform == 7:
+        h = bytes([fin | op, mb | n])
+    elif lenform == 16:
+        h = bytes([fin | op, mb | 126]) + n.to_bytes(2, "big")
+    else:
+        h = bytes([fin | op, mb | 127]) + n.to_bytes(8, "big")
+    if mask is None:
+        return h + payload
+    return h + mask + bytes(b ^ mask[i % 4] for i, b in enumerate(payload))
+
+
+def _case_mix(r, b):
+    return bytes((c ^ 0x20) if (65 <= (c & ~0x20) <= 90 and r.random() < 0.5) else c for c in b)
+
+
+def gen_ws_handshake(r):
+    """-> (bytes, kind) ; kinds: ok, ok-variant, longline, bad"""
+    x = r.random()
+    lines = list(WS_LINES)
+    eol = b"\r\n"
+    kind = "ok"
+    if x < 0.35:
+        pass
+    elif x < 0.7:
+        kind = "ok-variant"
+        r.shuffle(lines)
+        y = r.random()
+        if y < 0.3:
+            eol = b"\n"
+        if r.random() < 0.4:
+            # header names and fixed values are compared case-insensitively
+            lines = [(_case_mix(r, l.split(b" ")[0]) + b" " + l.split(b" ", 1)[1]) if not l.startswith(b"Sec-WebSocket-Key") else l
+                     for l in lines]
+        if r.random() < 0.5:
+            # an unknown header of a length aimed at the line-buffer arithmetic (145/146, 158/159)
+            ln = r.choice([10, 100, 130, 131, 132, 143, 144, 145, 146, 147, 150, 155, 156])
+            name = b"X-Pad: "
+            lines.insert(r.randrange(len(lines) + 1), name + b"p" * max(0, ln - len(name)))
+        if r.random() < 0.3:
+            lines = [l.replace(b": ", b":  \t ", 1) if r.random() < 0.5 else l for l in lines]
+        if r.random() < 0.2:
+            lines = [b"Connection: keep-alive, Upgrade" if l.lower().startswith(b"connection:") else l for l in lines]
+    elif x < 0.82:
+        ln = r.choice([157, 158, 159, 160, 161, 170, 200, 400])
+        kind = "longline" if ln >= 160 else "edgeline"
+        lines.insert(r.randrange(len(lines) + 1), b"X-Long: " + b"L" * (ln - 8))
+    else:
+        kind = "bad"
+        y = r.random()
+        if y < 0.25:
+            del lines[r.randrange(len(lines))]
+        elif y < 0.45:
+            lines.append(r.choice(lines))
+        elif y < 0.6:
+            i = r.randrange(len(lines))
+            lines[i] = lines[i].split(b" ")[0] + b" nonsense"
+        elif y < 0.7:
+            lines.insert(r.randrange(len(lines)), b"NoSeparatorHere")
+        elif y < 0.8:
+            return b"GET /other HTTP/1.1" + eol + eol.join(lines) + eol + eol, kind
+        elif y < 0.9:
+            lines.insert(r.randrange(1, len(lines)), b" folded continuation")
+        else:
+            lines.insert(r.randrange(len(lines)), b"X-Nul: a\x00b")
+    return WS_GET + eol + eol.join(lines) + eol + eol, kind
+
+
+def gen_ws_msg(r):
+    """a CoAP-over-WebSocket message (no length field) of a predictable kind"""
+    x = r.random()
+    if x < 0.55:
+        code = r.choice([1, 2, 3, 4, 5, 6, 7])
+        tl = r.choice([0, 0, 1, 4, 8, 12, 13, 20, 269, 300])
+        opts = _opts(r, SAFE_REQ_OPTS, r.choice([0, 1, 2, 3]))
+        if code == 5 and not any(o[0] == 12 for o in opts):
+            opts.append((12, bytes([60])))
+        pl = r.choice([0, 0, 1, 5, 100, 110, 117, 118, 119, 120, 121, 122, 123, 124, 125, 126, 200, 1000, 1400])
+    elif x < 0.7:
+        code = r.choice([65, 68, 69, 132, 160])
+        tl = r.choice([0, 2, 8])
+        opts = _opts(r, SAFE_RSP_OPTS, r.choice([0, 1]))
+        pl = r.choice([0, 3, 125, 126, 500])
+    elif x < 0.8:
+        code, tl, pl, opts = 226, 0, 0, [(2, b"")]       # 3 bytes: delivered
+    elif x < 0.85:
+        code, tl, pl, opts = r.choice([226, 227, 0]), 0, 0, []    # 2 bytes: dropped by the receiver
+    elif x < 0.95:
+        code, tl, pl = 225, 0, 0
+        opts = [(2, bytes([0x04, 0x80]))] if r.random() < 0.6 else []
+    else:
+        code, tl, pl, opts = 227, 0, 0, [(2, b"")]
+    return gen_wire.py_serialize("ws", 0, code, 0, gen_wire.rbytes(r, tl), opts, gen_wire.rbytes(r, pl)), code
+
+
+def gen_ws_stream(r, hs=None, small=False):
+    """-> (stream, meta): handshake, 1..5 masked frames, optional tail"""
+    hsb, hkind = hs if hs else gen_ws_handshake(r)
+    parts = [hsb]
+    pos = len(hsb)
+    hot = list(range(max(1, pos - 6), pos + 1))
+    codes = []
+    tail = "none"
+    if hkind in ("ok", "ok-variant"):
+        n = r.choice([1, 2, 2, 3, 5]) if not small else r.choice([1, 2])
+        for i in range(n):
+            m, code = gen_ws_msg(r)
+            while len(m) > WS_RX or (small and len(m) > 12):
+                m, code = gen_ws_msg(r)
+            lf = None
+            if r.random() < 0.15:
+                lf = 64 if r.random() < 0.5 else 16
+                if lf == 16 and len(m) >= 65536:
+                    lf = 64
+            f = ws_frame(m, mask=gen_wire.rbytes(r, 4), lenform=lf)
+            hl = len(f) - len(m)
+            hot.extend(range(pos + 1, pos + hl + 1))
+            parts.append(f)
+            if len(m) > 2:
+                codes.append(code)
+            pos += len(f)
+        x = r.random()
+        if x < 0.1:
+            m, _ = gen_ws_msg(r)
+            f = ws_frame(m, mask=gen_wire.rbytes(r, 4))
+            cut = r.randrange(1, len(f))
+            parts.append(f[:cut])
+            tail = "partial"
+        elif x < 0.2:
+            # oversize declaration, followed by some of its body
+            sz = r.choice([1473, 1474, 2000, 65535, 65536, 1 << 31, (1 << 63) + 5])
+            lf = 16 if sz < 65536 and r.random() < 0.7 else 64
+            h = bytes([0x82, 0x80 | (126 if lf == 16 else 127)]) + sz.to_bytes(2 if lf == 16 else 8, "big") + gen_wire.rbytes(r, 4)
+            parts.append(h + gen_wire.rbytes(r, r.choice([0, 0, 1, 50, 99, 100, 101, 200, 1500])))
+            hot.extend(range(pos + 1, pos + len(h) + 1))
+            tail = "oversize"
+        elif x < 0.26:
+            parts.append(ws_frame(b"\x00\x01", mask=None))          # unmasked: close 1002
+            tail = "unmasked"
+        elif x < 0.32:
+            parts.append(ws_frame(b"hi!", mask=gen_wire.rbytes(r, 4), op=r.choice([0, 1, 9, 10, 3])))
+            tail = "badop"
+        elif x < 0.38:
+            parts.append(ws_frame(b"\x03\xe8", mask=gen_wire.rbytes(r, 4), op=8))
+            tail = "closeframe"
+    else:
+        tail = hkind
+    stream = b"".join(parts)
+    closes = tail in ("oversize", "unmasked", "badop", "closeframe", "longline")
+    expect = None if tail in ("bad", "edgeline") else (codes, 1 if closes else 0, hkind in ("ok", "ok-variant"))
+    return stream, {"hs": hkind, "tail": tail, "hot": [h for h in hot if h < len(stream)],
+                    "expect": expect, "hslen": len(hsb)}
